@@ -9,7 +9,8 @@ from .common import ScriptedApp, build_request, token_body
 PROPERTY = "C18"
 LEVEL = "exploration"
 BUDGET = {"quick": 30, "thorough": 600}
-BEHAV = ["idle", "partial", "request", "request_stall", "two_requests", "request_then_partial", "fin_later", "slow_reader"]
+BEHAV = ["idle", "partial", "request", "request_stall", "two_requests", "request_then_partial", "fin_later", "slow_reader",
+         "trickle"]
 EVIDENCE = {
     "rule": "event histories under the simulated clock: up to connection_limit+3 connections started at seeded times, each "
             "with a behaviour from " + ", ".join(BEHAV) + " (applications sleep 0 / 0.5x / 2x / 5x channel_timeout; stalled "
@@ -63,7 +64,7 @@ def run_one(tapes, tier, scenario=None):
     net = NetConfig(sendbuf_len=8192, sndbuf_cap=sc["sndbuf_cap"])
     last_start = max(b["start"] for b in sc["conns"])
     horizon = last_start + 2 * max(b["gap"] for b in sc["conns"]) + 2 * max(b["app_sleep"] for b in sc["conns"]) + 3 * (T + C + L) + 10
-    if any(b["kind"] == "slow_reader" for b in sc["conns"]):
+    if any(b["kind"] in ("slow_reader", "trickle") for b in sc["conns"]):
         horizon += 14 * T
     sim = Simulation(tapes, knobs=knobs, net=net, sched=sc["sched"], n_listeners=sc["listeners"],
                      horizon=horizon, stop_at_idle=False, step_cap=400000)
@@ -93,6 +94,16 @@ def run_one(tapes, tier, scenario=None):
             steps = [("mode", "slow", max(40, sc["sndbuf_cap"] // 2), b.get("drain_every", 0.45 * T)), ("send", r1)]
         elif kind == "two_requests":
             steps = [("send", r1), ("sleep", b["gap"]), ("send", r2)]
+        elif kind == "trickle":
+            # an upload that takes several channel_timeouts in total but never pauses for a whole one
+            n = 8
+            step = max(1, len(r1) // n)
+            pieces = [r1[i:i + step] for i in range(0, len(r1), step)]
+            steps = []
+            for i, pc in enumerate(pieces):
+                if i:
+                    steps.append(("sleep", b.get("drain_every", 0.45 * T)))
+                steps.append(("send", pc))
         elif kind == "request_then_partial":
             steps = [("send", r1), ("sleep", b["gap"]), ("send", r2[:9])]
         elif kind == "fin_later":
@@ -158,7 +169,7 @@ def run_one(tapes, tier, scenario=None):
         req_ends = []  # stream offsets of complete requests sent by this client
         kind = b["kind"]
         p = plans[cid]
-        if kind in ("request", "request_stall", "two_requests", "request_then_partial", "fin_later", "slow_reader"):
+        if kind in ("request", "request_stall", "two_requests", "request_then_partial", "fin_later", "slow_reader", "trickle"):
             req_ends.append(len(p["r1"]))
         if kind == "two_requests":
             req_ends.append(len(p["r1"]) + len(p["r2"]))
@@ -196,6 +207,9 @@ def run_one(tapes, tier, scenario=None):
             before = [t_ for t_ in act if t_ <= close_t]
             rs_, probs_ = parse_stream(s.wire, ["GET", "GET"], True)
             incomplete = any(not r.complete for r in rs_ if not r.interim) or bool(probs_)
+            if kind == "trickle" and not recv_complete_t:
+                # the request itself was still arriving
+                incomplete = True
             if before and (close_t - max(before)) < T - 0.001 and incomplete:
                 res.v("reaped_while_active", kind, "conn %d closed by the server at t=%.3f, only %.3f s after its last activity (channel_timeout %s), with the response incomplete (%d bytes on the wire)" % (
                     cid, close_t - t0, close_t - max(before), T, len(s.wire)))
